@@ -928,14 +928,51 @@ func ruleIncrementBase(c *core.Ctx) {
 			for _, call := range core.CallsTo(info, fn.Decl.Body, true, cmapPkg+".nextString") {
 				n++
 				o.At(fn.Site(call, "i-th text of a range"))
-				base := ast.Unparen(call.Args[0])
+				// locals defined once stand for their definition (values := r.Values; first := values[0])
+				running := false
+				single := func(e ast.Expr) ast.Expr {
+					for steps := 0; steps < 4; steps++ {
+						id, isID := ast.Unparen(e).(*ast.Ident)
+						if !isID {
+							return e
+						}
+						obj, isVar := info.ObjectOf(id).(*types.Var)
+						if !isVar || obj.IsField() {
+							return e
+						}
+						ds := core.AssignsTo(info, fn.Decl, obj)
+						if len(ds) != 1 {
+							if len(ds) > 1 {
+								running = true
+							}
+							return e
+						}
+						as, isAs := ds[0].(*ast.AssignStmt)
+						if !isAs || len(as.Lhs) != len(as.Rhs) {
+							return e
+						}
+						for i, l := range as.Lhs {
+							if core.ObjOf(info, l) == obj {
+								e = as.Rhs[i]
+							}
+						}
+					}
+					return e
+				}
+				base := ast.Unparen(single(call.Args[0]))
 				ix, ok := base.(*ast.IndexExpr)
 				okBase := false
 				if ok {
 					if k, isK := core.IntConst(info, ix.Index); isK && k == 0 {
-						if sel, isSel := ast.Unparen(ix.X).(*ast.SelectorExpr); isSel && sel.Sel.Name == "Values" {
+						if sel, isSel := ast.Unparen(single(ix.X)).(*ast.SelectorExpr); isSel && sel.Sel.Name == "Values" {
 							okBase = true
 						}
+					}
+				}
+				if _, isIx := base.(*ast.IndexExpr); !okBase && !running && !isIx {
+					if _, isCall := base.(*ast.CallExpr); !isCall {
+						o.Unrec("%s: the text is derived from %s: not traced to the range's first text Values[0]", c.Prog.Pos(call.Pos()), c.Prog.Src(call.Args[0]))
+						okBase = true
 					}
 				}
 				if !okBase {
@@ -1010,9 +1047,11 @@ func ruleSimpleWidthsWindow(c *core.Ctx) {
 		}
 		// the copy loop
 		var loop *core.V
+		var loops []*core.V
 		for _, h := range loopHeads(g) {
 			if h.Cond.Range != nil && core.ObjOf(info, h.Cond.Range.X) == widths {
 				loop = h
+				loops = append(loops, h)
 			}
 		}
 		if loop == nil {
@@ -1029,14 +1068,22 @@ func ruleSimpleWidthsWindow(c *core.Ctx) {
 			{Expr: &ast.BinaryExpr{X: ln, Op: token.GEQ, Y: intLit(1)}},
 			{Expr: &ast.BinaryExpr{X: &ast.BinaryExpr{X: fc, Op: token.ADD, Y: ln}, Op: token.LEQ, Y: intLit(256)}},
 		}}
+		// the array may be copied by one of several loops (a fast path and a general one):
+		// a legal array must reach one of them
 		var atoms []core.Atom
-		for _, a := range g.DominatingAtoms(loop) {
-			if core.Mentions(info, a.Expr, firstChar) || core.Mentions(info, a.Expr, widths) {
-				atoms = append(atoms, a)
+		var alts []core.Formula
+		for _, lp := range loops {
+			var as []core.Atom
+			for _, a := range g.DominatingAtoms(lp) {
+				if core.Mentions(info, a.Expr, firstChar) || core.Mentions(info, a.Expr, widths) {
+					as = append(as, a)
+				}
 			}
+			alts = append(alts, core.Formula{Fn: fn, Atoms: as})
+			atoms = as
 		}
 		o.Count(len(atoms) + 1)
-		holds, counter, decided := c.Prog.Implies(legal, core.Formula{Fn: fn, Atoms: atoms})
+		holds, counter, decided := c.Prog.ImpliesAny(legal, alts)
 		if !decided {
 			core.Undecided("acceptance condition not decided: %s", counter)
 		}
@@ -1072,9 +1119,10 @@ func ruleDifferencesArray(c *core.Ctx) {
 		code := core.ObjOf(info, rs.Key)
 		// appends inside the loop
 		var intApp, nameApp *core.V
+		inLoop := naturalLoop(g, h) // by membership, not by position: two folded-in copies of one helper share their positions
 		for _, v := range g.Vs {
 			as, ok := v.AST.(*ast.AssignStmt)
-			if !ok || len(as.Rhs) != 1 || as.Pos() < rs.Body.Pos() || as.End() > rs.Body.End() {
+			if !ok || len(as.Rhs) != 1 || as.Pos() < rs.Body.Pos() || as.End() > rs.Body.End() || !inLoop[v] {
 				continue
 			}
 			call, ok := ast.Unparen(as.Rhs[0]).(*ast.CallExpr)
@@ -1102,7 +1150,7 @@ func ruleDifferencesArray(c *core.Ctx) {
 			// the guard of the integer append: the innermost condition whose true edge dominates it and mentions code
 			var guard *core.V
 			for _, bv := range g.BranchVertices() {
-				if bv.Cond.Expr != nil && bv.AST != nil && bv.Cond.Expr.Pos() >= rs.Body.Pos() && bv.Cond.Expr.End() <= rs.Body.End() &&
+				if bv.Cond.Expr != nil && bv.AST != nil && bv.Cond.Expr.Pos() >= rs.Body.Pos() && bv.Cond.Expr.End() <= rs.Body.End() && inLoop[bv] &&
 					g.EdgeDominates(intApp, core.EdgeRef{From: bv, Label: core.EdgeTrue}) && !g.EdgeDominates(nameApp, core.EdgeRef{From: bv, Label: core.EdgeTrue}) {
 					guard = bv
 				}
@@ -1214,34 +1262,60 @@ func ruleSimpleCodesSiblings(c *core.Ctx) {
 			}
 			info := fn.Info()
 			var rhs []string
-			ast.Inspect(fn.Decl.Body, func(m ast.Node) bool {
-				as, ok := m.(*ast.AssignStmt)
-				if !ok || len(as.Lhs) != 1 || len(as.Rhs) != 1 {
-					return true
-				}
-				sel, ok := ast.Unparen(as.Lhs[0]).(*ast.SelectorExpr)
-				if !ok || sel.Sel.Name != "CID" {
-					return true
-				}
-				o.Count(1)
-				o.At(fn.Site(as, "CID of a code"))
-				rhs = append(rhs, c.Prog.Src(as.Rhs[0]))
-				// no arithmetic in an 8-bit type inside the value
-				ast.Inspect(as.Rhs[0], func(k ast.Node) bool {
-					if be, ok := k.(*ast.BinaryExpr); ok && (be.Op == token.ADD || be.Op == token.SUB) {
-						if b, ok := info.TypeOf(be).Underlying().(*types.Basic); ok && (b.Kind() == types.Uint8 || b.Kind() == types.Int8) {
-							if tv, isConst := info.Types[be]; !isConst || tv.Value == nil {
-								o.FailAt(fn.Site(be, ""), "%s: %s is computed in an 8-bit type: code 255 wraps to 0, the CID of .notdef", c.Prog.Pos(be.Pos()), c.Prog.Src(be))
+			seenRhs := map[string]bool{}
+			var scan func(fn *core.Func, depth int)
+			scan = func(fn *core.Func, depth int) {
+				info := fn.Info()
+				ast.Inspect(fn.Decl.Body, func(m ast.Node) bool {
+					// a helper of the package that decodes one code (f.decode(code))
+					if call, isCall := m.(*ast.CallExpr); isCall && depth < 2 {
+						if callee := core.Callee(info, call); callee != nil && callee.Pkg() == fn.Obj.Pkg() {
+							if cf := c.Prog.FuncOf(callee); cf != nil && cf != fn && cf.Decl.Body != nil {
+								scan(cf, depth+1)
 							}
 						}
 					}
+					as, ok := m.(*ast.AssignStmt)
+					if !ok || len(as.Lhs) != 1 || len(as.Rhs) != 1 {
+						return true
+					}
+					sel, ok := ast.Unparen(as.Lhs[0]).(*ast.SelectorExpr)
+					if !ok || sel.Sel.Name != "CID" {
+						return true
+					}
+					o.Count(1)
+					o.At(fn.Site(as, "CID of a code"))
+					// the zero value is what an unmapped code has anyway: the relation compared is the mapped one
+					if k, isK := core.IntConst(info, as.Rhs[0]); !(isK && k == 0) && !seenRhs[c.Prog.Src(as.Rhs[0])] {
+						seenRhs[c.Prog.Src(as.Rhs[0])] = true
+						rhs = append(rhs, c.Prog.Src(as.Rhs[0]))
+					}
+					// no arithmetic in an 8-bit type inside the value
+					ast.Inspect(as.Rhs[0], func(k ast.Node) bool {
+						if be, ok := k.(*ast.BinaryExpr); ok && (be.Op == token.ADD || be.Op == token.SUB) {
+							if b, ok := info.TypeOf(be).Underlying().(*types.Basic); ok && (b.Kind() == types.Uint8 || b.Kind() == types.Int8) {
+								if tv, isConst := info.Types[be]; !isConst || tv.Value == nil {
+									o.FailAt(fn.Site(be, ""), "%s: %s is computed in an 8-bit type: code 255 wraps to 0, the CID of .notdef", c.Prog.Pos(be.Pos()), c.Prog.Src(be))
+								}
+							}
+						}
+						return true
+					})
 					return true
 				})
-				return true
-			})
+			}
+			scan(fn, 0)
+			_ = info
+			if len(rhs) == 0 {
+				o.Unrec("%s: no assignment to the CID of a code was found in the decoder or the helpers it calls", name)
+				continue
+			}
 			sort.Strings(rhs)
 			rel = append(rel, strings.Join(rhs, " | "))
 			names = append(names, name)
+		}
+		if len(rel) == 0 {
+			return
 		}
 		for i := 1; i < len(rel); i++ {
 			if rel[i] != rel[0] {
